@@ -256,7 +256,8 @@ def _run(chk, replay):
     cap = 600 if chk.tier == "quick" else 8000
     chosen = util.select(scenarios, cap, chk.rng)
     perms = [(0, 1, 2), (1, 2, 0), (2, 0, 1), (0, 2, 1), (1, 0, 2), (2, 1, 0)]
-    fsets = [["u", "aff"], ["all"], ["cst"], ["aff", "w", "grid_level"], ["w", "u"], ["cst", "aff", "u"]]
+    # (the last two: every field, lowest first and highest last, the inner ones swapped; a repeated field inside such a run)
+    fsets = [["u", "aff"], ["all"], ["cst"], ["aff", "w", "grid_level"], ["w", "u"], ["cst", "aff", "u"], ["u", "cst", "aff", "w"], ["aff", "aff", "w"]]
     for i, sc in enumerate(chosen):
         axes = perms[i % 6]
         serial = i % 2 == 1
